@@ -16,6 +16,8 @@ PROP = {
         "GunYu.Props.C04.done_ends_with_footer_gen",
         "GunYu.Props.C04.alteration_detected_gen",
         "GunYu.Props.C04.alteration_is_error_gen",
+        "GunYu.Props.C04.itemT_good",
+        "GunYu.Props.C04.itemT_total",
     ],
     "expected_facts": {},
     "harness": [
@@ -54,6 +56,20 @@ PROP = {
             "bidirectional replay onto a CLUSTER target = one more result-sending goroutine) and per request k: single-shot error "
             "(EXEC included), PERSISTENT failure from k on, an error INSIDE the EXEC reply of a queued command (bisync), cancel at k, "
             "hold-cancel-release, and hold-release WITHOUT cancel (a slow worker must be awaited). "
+            "Added after the second review: (1) per file 150 (thorough 2000) alterations drawn from VERIF_SEED (two bytes, a written "
+            "length/count-making value, a byte removed / inserted) through parser and model; (2)(2b)(2c) besides XOR masks every "
+            "position is OVERWRITTEN with values that make a length / count field large (F1..F4 listpack integers, F0/EF string "
+            "lengths, 80/81/C3/7F RDB length forms, ...): 3 fixed + seed-chosen ones per file in the quick tier, all 14 in the "
+            "thorough tier; the quick tier's extra masks, written values and the offsets of the fixture sweep depend on VERIF_SEED; "
+            "(2b) a second stream file whose master field name has five bytes plus an LZF string; in (2b)/(2c) the snapshot's "
+            "footer is delivered only after parser and workers have quiesced on the rest (TailLate: a snapshot of realistic length "
+            "is decoded and replayed long before its checksum is reached - otherwise the checksum error of a tiny file wins the race "
+            "against the value decoder and hides what the decoder does); (3) error replies carry real refusal texts in rotation "
+            "(OOM, READONLY, WRONGTYPE; inside EXEC: Bad data format, BUSYKEY, OOM); the target DROPS the connection that sends "
+            "request k (per connection, the checkpoint connection lives on); the AUX lua script must be loaded on EVERY primary of "
+            "the cluster target (per-connection log of the double, a queued SCRIPT LOAD counts when its EXEC was executed); "
+            "(3b) a list of 260 elements (expansion = 260 pipelined commands, flushed every 100): error reply / persistent failure / "
+            "dropped connection / failure inside EXEC at the edges and inside of every batch plus seed-chosen positions. "
             "distinct_nontrivial = distinct (file, position) alteration rows + distinct fan-out scenario points",
     "trusted": [
         "RDB framing (opcodes, length forms, string forms, per-type value layout) as transcribed in Model/RdbFrame.lean and as "
@@ -76,11 +92,19 @@ PROP = {
         "fan-out conclusion is membership (every entry of the snapshot is among the applied ones): with entries = positions of the "
         "snapshot that is 'every entry applied'; multiplicity is not stated",
         "MemoryReader (memory channel) is not driven by the harness (closes its pipe after copyFunc, by reading)",
+        "D19's contract 'the reader ends exactly at the snapshot' holds for the store pump (writes `size` bytes, closes) and the memory "
+        "reader; `cmd=rdb` (documented input: an RDB file) on an appendonly file with an RDB preamble now prints / loads every key of "
+        "the preamble and then fails with 'unexpected data after the rdb footer' (checked: exit status 2) where it used to stop "
+        "silently, ignoring the commands behind the preamble - accepted, not a supported input",
     ],
     "partial": [
         "memory exhaustion / wall-clock hang on damaged input is outside what a theorem about the model can say (parse_total only "
         "states termination of the model within |input| steps); tied by the sweep with child processes and watchdogs",
         "real goroutine interleavings are explored by synctest schedules and repeated runs, not exhaustively",
+        "no theorem links Part 2 to Part 1 (parse = err n  =>  the item list handed to the fan-out ends with term = err): that "
+        "composition is the code of ParseRdb's goroutine, covered by the sweep only",
+        "alteration_is_error_gen is instantiated for the modelled grammar with 'outside the model' read as an error (itemT); for the "
+        "real Loader.Next GoodItem / Total are trusted",
     ],
 }
 
@@ -95,7 +119,7 @@ MANIFEST = {
             "refused unless it becomes all-zero ('checksum disabled'). Tie: exhaustive truncation/XOR sweep of small files "
             "through the real parser (vs model) and the real SendRdb against the target double with fault injection, cancellation at "
             "every request and the hold-cancel-release schedule under synctest; independent Go monitor of the property.",
-    "note": "trusted: Lean kernel, RDB framing transcription, target double, synctest; models of the REPAIRED code (D6, D19 fixed; D22, D23, D26 are crash/hang repairs outside the models)",
+    "note": "trusted: Lean kernel, RDB framing transcription, target double, synctest; models of the REPAIRED code (D6, D19 fixed; D22, D23, D26, D32 are crash/hang repairs outside the models)",
     "technique": "Lean 4 proof (12-clause inductive invariant over an event system; sequential-reader combinator lemmas) + exhaustive "
                  "small-scope differential correspondence + fault/cancellation schedule exploration + monitor",
 }
